@@ -148,6 +148,27 @@ Proof.
   rewrite (H x (or_introl eq_refl)). simpl. rewrite IH; [reflexivity|]. intros y Hy. apply H. right. exact Hy.
 Qed.
 
+Lemma frow_In h old a v : In (a, v) (frow h old) <-> exists t, In (a, t) old /\ h t = Some v.
+Proof.
+  unfold frow. rewrite in_flat_map. split.
+  - intros [[a0 t0] [Hp Hin]]. simpl in Hin. destruct (h t0) as [n|] eqn:E; [|destruct Hin].
+    destruct Hin as [Hin|[]]. inversion Hin; subst. exists t0. split; assumption.
+  - intros [t [Hp E]]. exists (a, t). split; [exact Hp|]. simpl. rewrite E. left. reflexivity.
+Qed.
+
+Lemma frow_keys_NoDup h old : NoDup (map fst old) -> NoDup (map fst (frow h old)).
+Proof.
+  induction old as [|[a0 t0] r IH]; intro Hnd; [constructor|]. simpl in Hnd. inversion Hnd; subst.
+  change (frow h ((a0, t0) :: r)) with ((match h t0 with Some n => [(a0, n)] | None => [] end) ++ frow h r).
+  destruct (h t0) as [n|]; simpl; [|apply IH; assumption]. constructor; [|apply IH; assumption].
+  intro H. apply frow_keys in H. contradiction.
+Qed.
+
+Lemma existsb_false {A} (f : A -> bool) l : existsb f l = false -> forall x, In x l -> f x = false.
+Proof.
+  intros H x Hx. destruct (f x) eqn:E; [|reflexivity]. assert (T : existsb f l = true) by (apply existsb_exists; exists x; auto). congruence.
+Qed.
+
 Section CodedProofs.
   Variable m : dfa.
   Hypothesis Hv : valid_dfa m = true.
@@ -416,11 +437,53 @@ Section CodedProofs.
     - exact (iso_minimal_complete cR qRs fname cR_states_NoDup NB eq_refl H_st H_inj H_sur H_init iso_fin iso_delta).
     - exact (iso_minimal_partial cR qRs fname cR_states_NoDup NB eq_refl H_st H_inj H_sur H_init iso_fin iso_delta).
   Qed.
+
+  Lemma cR_valid : valid_dfa cR = true.
+  Proof.
+    unfold valid_dfa. repeat (apply andb_true_iff; split).
+    - apply nodupb_NoDup. exact cR_states_NoDup.
+    - apply nodupb_NoDup. exact (syms_NoDup m Hv).
+    - apply nodupb_NoDup. exact keys_NoDup.
+    - apply forallb_forall. intros n Hn. apply memb_In. apply cR_states in Hn. destruct Hn as [q [Hq [Hd ->]]].
+      eapply assoc_Some_key. exact (cR_row q Hq Hd).
+    - apply forallb_forall. intros [n row] Hin. change (d_trans cR) with ctrans in Hin. unfold ctrans in Hin.
+      apply in_map_iff in Hin. destruct Hin as [p [E Hp]]. apply live_In in Hp. destruct Hp as [i [Hi [Ht ->]]].
+      simpl in E. rewrite (nth_error_nth _ _ 0 (nth_error_idx i ids Hi)) in E. inversion E; subst n row. clear E. simpl snd.
+      destruct (live_rep i Hi Ht) as [Hr Ec]. destruct (K_row m Hv K HK _ Hr) as [old Eo].
+      assert (Erow : rowof i = frow (fun t => assoc t bmap) old) by (unfold rowof; rewrite Eo; reflexivity).
+      pose proof (row_keys_NoDup m Hv _ _ Eo) as Hnd.
+      pose proof (row_props m Hv _ _ Eo) as Hok. unfold row_ok in Hok. repeat rewrite andb_true_iff in Hok.
+      destruct Hok as [[_ Hent] _]. rewrite forallb_forall in Hent.
+      assert (Hkeys : incl (map fst (rowof i)) (d_syms m)).
+      { intros a Ha. rewrite Erow in Ha. apply frow_keys in Ha. apply in_map_iff in Ha. destruct Ha as [[a' t] [Ea Hin]].
+        simpl in Ea. subst a'. specialize (Hent _ Hin). simpl in Hent. apply andb_true_iff in Hent. apply memb_In. tauto. }
+      unfold row_ok. repeat (apply andb_true_iff; split).
+      + apply nodupb_NoDup. rewrite Erow. apply frow_keys_NoDup. exact Hnd.
+      + apply forallb_forall. intros [a v] Hin. simpl. apply andb_true_iff. split; apply memb_In.
+        * apply Hkeys. apply in_map_iff. exists (a, v). split; [reflexivity|exact Hin].
+        * rewrite Erow in Hin. apply frow_In in Hin. destruct Hin as [t [_ Et]]. apply assoc_In in Et.
+          apply bmap_In in Et. apply cR_states. exists t. exact Et.
+      + simpl d_partial. destruct (existsb (fun r => negb (Nat.eqb (length (snd r)) (length (d_syms m)))) ctrans) eqn:Ep;
+          [reflexivity|]. simpl.
+        assert (Hlen : length (rowof i) = length (d_syms m)).
+        { pose proof (existsb_false _ _ Ep (idx Nat.eqb i ids, rowof i)) as H. simpl in H.
+          apply negb_false_iff in H; [apply Nat.eqb_eq in H; exact H|].
+          unfold ctrans. apply in_map_iff. exists (idx Nat.eqb i ids, mem i). split.
+          - simpl. rewrite (nth_error_nth _ _ 0 (nth_error_idx i ids Hi)). reflexivity.
+          - apply live_In. exists i. auto. }
+        apply forallb_forall. intros a Ha. apply memb_In. revert a Ha.
+        apply NoDup_length_incl; [rewrite Erow; apply frow_keys_NoDup; exact Hnd| |exact Hkeys].
+        rewrite map_length, Hlen. apply Nat.le_refl.
+    - apply memb_In. apply cR_states. exists (d_init m). auto.
+    - apply subsetb_incl. intros v Hv'. simpl in Hv'. rewrite set_of_In in Hv'. apply in_map_iff in Hv'.
+      destruct Hv' as [q [<- Hq]]. apply filter_In in Hq. destruct Hq as [Hq Hf]. apply cR_states. exists q.
+      split; [exact Hq|]. split; [|reflexivity]. apply (final_not_dropped m K c' nerode' q Hq). apply memb_In. exact Hf.
+  Qed.
 End CodedProofs.
 
 (* ---------- _minify entirely as coded vs the specification model ---------- *)
 Definition coded_ok (m : dfa) (Rc : dfa) (Pc : list (list nat)) (R0 : dfa) : Prop :=
-  d_syms Rc = d_syms R0 /\ (forall w, dfa_acc Rc w = dfa_acc R0 w) /\ size Rc = size R0 /\
+  valid_dfa Rc = true /\ d_syms Rc = d_syms R0 /\ (forall w, dfa_acc Rc w = dfa_acc R0 w) /\ size Rc = size R0 /\
   (complete Rc <-> complete R0) /\
   (minimal_complete R0 -> minimal_complete Rc) /\ (minimal_partial R0 -> minimal_partial Rc).
 
@@ -445,7 +508,8 @@ Proof.
       pose proof (nm_in_qstates m K c' q Hq Hd) as H. rewrite Eq in H. destruct H. }
     exists (empty_language (d_syms m)), [], (empty_language (d_syms m)), [], Pf.
     unfold c_quotient. rewrite Eb. split; [reflexivity|]. split; [reflexivity|]. split; [reflexivity|].
-    split; [intro H; contradiction H; reflexivity|]. unfold coded_ok. repeat split; auto.
+    split; [intro H; contradiction H; reflexivity|]. unfold coded_ok.
+    split; [apply empty_language_valid; apply (syms_NoDup m Hv)|]. repeat split; auto.
   - assert (Ed : dropped m K c' (Some (d_init m)) = false).
     { destruct (dropped m K c' (Some (d_init m))) eqn:Ed; [exfalso|reflexivity].
       assert (Hr0 : In r0 (qstates m K c')) by (rewrite Eq; left; reflexivity).
@@ -458,17 +522,18 @@ Proof.
     split; [apply (c_quotient_eq m Hv K HK Pf Hwf c' Hn Hcc rep Hrep Ed)|].
     split; [reflexivity|]. split; [reflexivity|]. split; [reflexivity|].
     destruct (iso_all m Hv K HK Pf Hwf c' Hn Hcc rep Hrep Ed) as [H1 [H2 [H3 [H4 H5]]]].
-    unfold coded_ok. split; [reflexivity|]. repeat split; try assumption; apply H3.
+    unfold coded_ok. split; [apply (cR_valid m Hv K HK Pf Hwf c' Hn Hcc rep Hrep Ed)|].
+    split; [reflexivity|]. repeat split; try assumption; apply H3.
 Qed.
 
 Definition coded_result (m R : dfa) (size0 : nat) : Prop :=
-  d_syms R = d_syms m /\ L_dfa R =L L_dfa m /\ size R = size0 /\
+  valid_dfa R = true /\ d_syms R = d_syms m /\ L_dfa R =L L_dfa m /\ size R = size0 /\
   (complete R -> minimal_complete R) /\ (~ complete R -> minimal_partial R).
 
 Lemma coded_transfer m Rc Pc R0 : coded_ok m Rc Pc R0 -> min_result m R0 -> coded_result m Rc (size R0).
 Proof.
-  intros [Hs [Hl [Hz [Hc [Hmc Hmp]]]]] M. pose proof M as [V [S [Lg [St _]]]].
-  unfold coded_result. split; [congruence|]. split.
+  intros [Hvc [Hs [Hl [Hz [Hc [Hmc Hmp]]]]]] M. pose proof M as [V [S [Lg [St _]]]].
+  unfold coded_result. split; [exact Hvc|]. split; [congruence|]. split.
   - intro w. unfold L_dfa. rewrite (Hl w), (Lg w). tauto.
   - split; [exact Hz|]. split.
     + intros _. apply Hmc. exact (struct_minimal_complete R0 V St).
